@@ -253,6 +253,9 @@ def pick_positions(ctx, n, heavy_ok=False):
     for p in pos:
         # keep the quick tier fast: prefer positions with few pieces for deep searches
         npieces = sum(1 for ch in p.split('_')[0] if ch.isalpha())
+        # searches make moves: stay clear of the 12-bit undo field of the half-move clock (C03 bounds it by 4095)
+        if int(p.split('_')[4]) > 3900:
+            continue
         if heavy_ok or npieces <= 14:
             out.append(p)
         if len(out) >= n:
